@@ -267,13 +267,6 @@ func (w WALBatch) replay(fs *fileStore) error {
 			}
 
 		case OpUpdate:
-			tuple := Tuple{
-				Relation: &pageTableSchema,
-				Vals:     make(map[string]interface{}),
-			}
-			if err := tuple.Decode(bytes.NewBuffer(row.val)); err != nil {
-				return err
-			}
 			err = node.updateCell(row.cellID, row.val)
 			if err != nil {
 				return nil
